@@ -683,8 +683,8 @@ impl Check for C17 {
             real: &["quinn 0.11, quinn-proto, rustls (ring), h3-quinn (lib.rs, datagram.rs), h3 stream::WriteBuf and frame encoding, in scenario (c) all of h3"],
             stub: &["UDP sockets, timers, task spawner and clock (engine E3: virtual time, in-memory network, choice-driven)", "the raw Quinn peer's behaviour", "a fixed Ed25519 certificate checked into /verif/sim/certs"],
             assumptions: &["ring's system RNG influences packet contents only, never sizes or timing (runs are re-executed and compared by trace hash; a divergence is a harness error)", "DATA frame headers are compared against the minimal reference encoding"],
-            quick_runs: 5_000,
-            thorough_runs: 300_000,
+            quick_runs: 25_000,
+            thorough_runs: 1_000_000,
         }
     }
     fn run(&self, ctx: &RunCtx) -> RunOut {
